@@ -743,6 +743,30 @@ class Sim:
             except Exception as e:  # noqa
                 self.obs.append(f"RAISE stop {type(e).__name__}")
             self.report_writes()
+        elif op == "busy":
+            # busy k ms: ONE call of the I/O loop making k passes, its select() returning every `ms` milliseconds (k*ms a whole
+            # number of seconds) -- a loop that is woken more often than once a second for a while; state the loop carries
+            # from pass to pass is carried here too (every other event starts the loop function afresh)
+            k, ms = int(t[1]), int(t[2])
+            t0 = self.env.now
+            self.env.select_step = ms / 1000.0
+            self.env.select_budget = k
+            th = n._connection_thread
+            self._in_io = True
+            try:
+                n._handle_connections(th)
+            except StopLoop:
+                pass
+            except (Exception, DeadlockError) as e:  # noqa
+                self.obs.append(f"CRASH io {type(e).__name__}")
+                self.env.crashes.append(("io", e))
+                self._io_dead = True
+            finally:
+                self._in_io = False
+                self.env.select_step = 0
+                self.env.now = t0 + (k * ms) // 1000
+            self._track_new_conns()
+            self.report_writes()        # (no further pass here: the observation is the state that one call left behind)
         elif op == "armstop":
             # from here on the next dial of the reconnect pass coincides with another thread's stop() (config `midconnect=1`)
             self.midconnect_armed = True
